@@ -110,9 +110,7 @@ Proof.
   destruct (fwd && (hpos e0 <=? -1)); [cbn; exact P|].
   destruct (match_go _ _ _ _ _ _) as [[m pos]|].
   - destruct (negb (sp =? 0)); cbn; exact P.
-  - destruct fwd; [|exact P].
-    pose proof (h_undo_hist (set_hist e0 (-1) (hcpos e0))) as U.
-    destruct (h_undo (set_hist e0 (-1) (hcpos e0))); auto. cbn in U. congruence.
+  - destruct fwd; [|exact P]. unfold h_restore_line. destruct (rev _) as [|[l p] r]; cbn; exact P.
 Qed.
 
 (* ---------------------------------------------------------------- (d) nothing fails at either end *)
